@@ -1472,6 +1472,9 @@ namespace bloch::runtime {
         obj->destroyed = true;
         if (runUserDestructor && obj->cls) {
             bool savedReturn = m_hasReturn;
+            // The object may die while a 'return' of the surrounding function is unwinding; its
+            // destructors still run from their first to their last statement.
+            m_hasReturn = false;
             for (RuntimeClass* cur = obj->cls; cur; cur = cur->base) {
                 if (!cur->destructorDecl || !cur->destructorDecl->body)
                     continue;
